@@ -23,7 +23,7 @@ def run(tier):
         n = 1 + meta["cases"] // (3000 if mode == "strict" else 12000)
         paths += shard_file(t, n, wd, "replay-%s" % mode) if n > 1 else [t]
     t = os.path.join(wd, "random.ndjson")
-    vlib.harness(["relations", "--seed", chk.seed, "--out", t, "--n", 600 if tier == "quick" else 12000, "--limit-spends", 1])
+    vlib.harness(["relations", "--seed", chk.seed, "--out", t, "--n", 600 if tier == "quick" else 12000, "--limit-spends", 1, "--flood", 1])
     paths += shard_file(t, 3 if tier == "quick" else 16, wd, "random")
     validate_parallel("Trace_Relations.tla", paths, chk, "rel", sig_fn=sig, jobs=8, classes=["C06"])
     # vacuity guard + evidence statistics
